@@ -1313,6 +1313,10 @@ static int dd_ctor_dtor_name(struct demangle_data *dd)
 	if (dd->type)
 		return ret;
 
+	/* no name to repeat: C1/D0 code before anything was emitted */
+	if (dd->new == NULL)
+		return -1;
+
 	/* repeat last name after '::' */
 	pos = strrchr(dd->new, ':');
 	if (pos == NULL)
